@@ -6,7 +6,7 @@ from .lib.facts import VERIF, AnalysisBroken
 
 SELECT = r'^bluetoe::(pairing_no_output|pairing_numeric_output)::|^bluetoe::details::(io_capabilities_matrix|security_manager_base|security_manager_impl)::'
 UNITS = lambda u: u in ('w_inst_sm',) or u.startswith('t_security_manager')
-EXACT = ('legacy-method-table', 'lesc-method-table')   # verdicts computed from the meaning of the code (compiler / folding / symbolic terms): not gated by the golden structure
+EXACT = ('legacy-method-table', 'lesc-method-table', 'oob-preferred')   # verdicts computed from the meaning of the code (compiler / folding / symbolic terms): not gated by the golden structure
 META = {
     'level': 'table extraction: the decision lists select_legacy_pairing_algorithm / select_lesc_pairing_algorithm / get_io_capabilities of the two output-capability classes '
              '(3 input-capability overloads each) are folded for each of the 5 remote IO capabilities and compared cell by cell with the Core specification tables (Vol 3 Part H, '
@@ -141,19 +141,26 @@ def run(chk, facts, tier):
     SB = 'bluetoe::details::security_manager_base::'
     for fname, want in (('legacy_select_pairing_algorithm', '&&'), ('lesc_select_pairing_algorithm', '||')):
         for fn in variants(facts, SB + fname, chk):
-            ifs = fn.body.find(lambda n: n.k == 'IfStmt')
-            ok = False
-            why = 'no OOB test'
-            if ifs:
-                c = strip_casts(ifs[0].child('cond'))
-                names = {x.n for x in c.walk() if x.k in REF_KINDS}
-                then_ret = [r for r in ifs[0].child('then').find(lambda n: n.k == 'ReturnStmt')] if ifs[0].child('then') is not None else []
-                if ifs[0].child('then') is not None and ifs[0].child('then').k == 'ReturnStmt':
-                    then_ret = [ifs[0].child('then')]
-                ok = c.k == 'BinaryOperator' and c.o == want and fn.params[1]['n'] in names and fn.params[3]['n'] in names and bool(then_ret) and strip_casts(ret_value(then_ret[0])).n == 'oob_authentication'
-                why = 'OOB must be selected when remote flag %s local data' % want
-            last = [r for r in fn.returns() if ret_value(r) is not None and ret_value(r).d.get('call')]
-            ok = ok and bool(last) and any(is_name(a, fn.params[0]['n']) for a in ret_value(last[0]).args())
+            # fold the function for the four combinations of (remote OOB flag, local OOB data): which return is reached
+            pflag, phas = fn.params[1]['n'], fn.params[3]['n']
+            ok = True
+            why = ''
+            table = {}
+            try:
+                for v1 in (0, 1):
+                    for v2 in (0, 1):
+                        r = evaluate(fn, {pflag: v1, phas: v2})
+                        v = strip_casts(ret_value(r)) if r is not None and ret_value(r) is not None else None
+                        table[(v1, v2)] = 'oob' if v is not None and v.n == 'oob_authentication' else ('table' if v is not None and v.d.get('call') and any(is_name(a, fn.params[0]['n']) for a in v.args()) else '?')
+            except AnalysisBroken as e:
+                chk.broke('%s: cannot fold the OOB decision (%s)' % (fname, str(e)[:120]))
+                continue
+            for (v1, v2), got in sorted(table.items()):
+                exp = 'oob' if ((v1 and v2) if want == '&&' else (v1 or v2)) else 'table'
+                if got != exp:
+                    ok = False
+                    why = 'remote OOB flag %d, local OOB data %d selects %s, the specification says %s (OOB when remote flag %s local data, otherwise the IO capability mapping with the remote capability)' % (
+                        v1, v2, {'oob': 'OOB', 'table': 'the IO mapping', '?': 'something else'}[got], {'oob': 'OOB', 'table': 'the IO mapping'}[exp], want)
             chk.instance('oob-preferred', fn, fname, ok, '' if ok else why, key=fname)
             p = fn.params[2]
             used = bool(p['n']) and mentions(fn.body, p['n'])
